@@ -17,6 +17,10 @@ type SlotSpec struct {
 	// SkipsZero: the call documents that zero values are skipped (struct
 	// conditions, Updates(struct)), so a ZeroLike value need not appear.
 	SkipsZero bool
+	// ListCtx: the call expands a slice argument at this position into a list
+	// ("(?)" after a parenthesis, WithoutParentheses, a map condition): only
+	// there may a byte-kind value be bound one value per byte.
+	ListCtx bool
 }
 
 // Ctx is what a call sees when it is applied.
@@ -72,6 +76,9 @@ type Op struct {
 }
 
 func anySlot(j int) SlotSpec { return SlotSpec{J: j, Classes: AnyClasses} }
+
+// listSlot: anySlot at a position where gorm expands slices into a list.
+func listSlot(j int) SlotSpec { return SlotSpec{J: j, Classes: AnyClasses, ListCtx: true} }
 
 // inSlot: a slot used as "col IN ?": the default class is a two-element slice
 // (so that the default program is valid SQL); all other classes follow.
@@ -134,7 +141,7 @@ var condForms = []condForm{
 	{`"{0} IN ?", v`, []SlotSpec{inSlot(0)}, func(c *Ctx, v []Val) (interface{}, []interface{}) {
 		return c.tpl("{0} IN ?"), []interface{}{v[0].V}
 	}, false},
-	{`"{0} IN (?)", v`, []SlotSpec{anySlot(0)}, func(c *Ctx, v []Val) (interface{}, []interface{}) {
+	{`"{0} IN (?)", v`, []SlotSpec{listSlot(0)}, func(c *Ctx, v []Val) (interface{}, []interface{}) {
 		return c.tpl("{0} IN (?)"), []interface{}{v[0].V}
 	}, true},
 	{`"{0} = ? AND {1} <> ?", v, w`, []SlotSpec{anySlot(0), anySlot(1)}, func(c *Ctx, v []Val) (interface{}, []interface{}) {
@@ -146,7 +153,7 @@ var condForms = []condForm{
 	{`"{0}", v`, []SlotSpec{anySlot(0)}, func(c *Ctx, v []Val) (interface{}, []interface{}) {
 		return c.Col(0), []interface{}{v[0].V}
 	}, false},
-	{`map{{0}:v,{1}:w}`, []SlotSpec{anySlot(0), anySlot(1)}, func(c *Ctx, v []Val) (interface{}, []interface{}) {
+	{`map{{0}:v,{1}:w}`, []SlotSpec{listSlot(0), listSlot(1)}, func(c *Ctx, v []Val) (interface{}, []interface{}) {
 		return map[string]interface{}{c.Col(0): v[0].V, c.Col(1): v[1].V}, nil
 	}, true},
 	{`&W{typed fields}`, typedSlots(true, 0), func(c *Ctx, v []Val) (interface{}, []interface{}) {
@@ -242,7 +249,7 @@ func buildOps() []*Op {
 		Apply: func(db *gorm.DB, c *Ctx, v []Val) *gorm.DB {
 			return db.Joins(c.tpl("JOIN t2 ON t2.id = other_id AND {0} = ?"), v[0].V)
 		}})
-	add(&Op{Label: `Joins("JOIN t2 j ON {0} = @a AND {1} IN (?)", Named(a), w)`, Clause: "JOIN", Slots: []SlotSpec{anySlot(0), anySlot(1)},
+	add(&Op{Label: `Joins("JOIN t2 j ON {0} = @a AND {1} IN (?)", Named(a), w)`, Clause: "JOIN", Slots: []SlotSpec{anySlot(0), listSlot(1)},
 		Apply: func(db *gorm.DB, c *Ctx, v []Val) *gorm.DB {
 			return db.Joins(c.tpl("JOIN t2 j ON {0} = @a AND {1} IN (?)"), v[1].V, sql.Named("a", v[0].V))
 		}})
@@ -250,7 +257,7 @@ func buildOps() []*Op {
 		Apply: func(db *gorm.DB, c *Ctx, v []Val) *gorm.DB {
 			return db.Joins("Other", c.Base.Where(c.tpl("{0} = ? OR {1} IN ?"), v[0].V, v[1].V))
 		}})
-	add(&Op{Label: `InnerJoins("Other", db.Where(map{{0}:v}))`, Clause: "JOIN", Slots: []SlotSpec{anySlot(0)}, UniqueKey: "relation-join", NeedsSchema: true,
+	add(&Op{Label: `InnerJoins("Other", db.Where(map{{0}:v}))`, Clause: "JOIN", Slots: []SlotSpec{listSlot(0)}, UniqueKey: "relation-join", NeedsSchema: true,
 		Apply: func(db *gorm.DB, c *Ctx, v []Val) *gorm.DB {
 			return db.InnerJoins("Other", c.Base.Where(map[string]interface{}{c.Col(0): v[0].V}))
 		}})
@@ -259,7 +266,7 @@ func buildOps() []*Op {
 			return db.Order(clause.OrderBy{Expression: clause.Expr{SQL: c.tpl("{0} = ? DESC"), Vars: []interface{}{v[0].V}}})
 		}})
 	add(&Op{Label: `Order(clause.OrderBy{Expression: Expr{"FIELD({0},?)", [list], WithoutParentheses}})`, Clause: "ORDER",
-		Slots: []SlotSpec{{J: 0, Classes: []Class{CSlice3Int, CSlice2, CSlice1, CSlice0, CIface2, CBytes, CStr, CDValuerSlice}}}, Core: true,
+		Slots: []SlotSpec{{J: 0, ListCtx: true, Classes: []Class{CSlice3Int, CSlice2, CSlice1, CSlice0, CIface2, CBytes, CNamedBytes, CRawJSON, CStr, CDValuerSlice}}}, Core: true,
 		Apply: func(db *gorm.DB, c *Ctx, v []Val) *gorm.DB {
 			return db.Order(clause.OrderBy{Expression: clause.Expr{SQL: c.tpl("FIELD({0},?)"), Vars: []interface{}{v[0].V}, WithoutParentheses: true}})
 		}})
@@ -330,17 +337,28 @@ func buildOps() []*Op {
 		}
 		return []SlotSpec{{Key: key, Classes: cl}}
 	}
+	bareList := func(key string, first Class) []SlotSpec {
+		sp := bare(key, first)
+		sp[0].ListCtx = true
+		return sp
+	}
+	bareFor := func(t, key string, first Class) []SlotSpec {
+		if t == "(?)" {
+			return bareList(key, first)
+		}
+		return bare(key, first)
+	}
 	for _, t := range []string{"(?)", "?"} {
 		t := t
 		first := CSub
 		if t == "?" {
 			first = CExpr
 		}
-		add(&Op{Label: `Table("` + t + `", v)`, Clause: "TABLE", Slots: bare("TABLE", first), UniqueKey: "bare-table", Bare: true, Core: t == "(?)",
+		add(&Op{Label: `Table("` + t + `", v)`, Clause: "TABLE", Slots: bareFor(t, "TABLE", first), UniqueKey: "bare-table", Bare: true, Core: t == "(?)",
 			Apply: func(db *gorm.DB, c *Ctx, v []Val) *gorm.DB { return db.Table(t, v[0].V) }})
-		add(&Op{Label: `Select("` + t + `", v)`, Clause: "SELECT", Slots: bare("SELECT", first), Bare: true,
+		add(&Op{Label: `Select("` + t + `", v)`, Clause: "SELECT", Slots: bareFor(t, "SELECT", first), Bare: true,
 			Apply: func(db *gorm.DB, c *Ctx, v []Val) *gorm.DB { return db.Select(t, v[0].V) }})
-		add(&Op{Label: `Where("` + t + `", v)`, Clause: "WHERE", Slots: bare("COND", first), UniqueKey: "bare-cond", Bare: true,
+		add(&Op{Label: `Where("` + t + `", v)`, Clause: "WHERE", Slots: bareFor(t, "COND", first), UniqueKey: "bare-cond", Bare: true,
 			Apply: func(db *gorm.DB, c *Ctx, v []Val) *gorm.DB { return db.Where(t, v[0].V) }})
 	}
 	add(&Op{Label: `Joins("?", v)`, Clause: "JOIN", Slots: bare("TABLE", CExpr), UniqueKey: "bare-table", BareJoin: true, Bare: true,
